@@ -70,8 +70,11 @@ void Oomd::updateContext() {
       // The /proc/swaps format is pretty bad. The first field is padded by
       // spaces but the rest of the fields are padded by '\t'. Since we don't
       // really care about the first field, we'll just split by '\t'.
-      OCHECK_EXCEPT(
-          parts.size() == 4, std::runtime_error("/proc/swaps malformed"));
+      if (parts.size() != 4) {
+        // nothing catches an exception thrown here; ignore the odd line
+        OLOG << "Ignoring malformed /proc/swaps line: " << (*swaps)[i];
+        continue;
+      }
       system_ctx.swaptotal += std::stoll(parts[1]) * 1024; // Values are in KB
       system_ctx.swapused += std::stoll(parts[2]) * 1024; // Values are in KB
     }
@@ -90,9 +93,12 @@ void Oomd::updateContext() {
     const static double factor300 = std::exp(-interval_.count() / 300.0);
 
     auto& prev_system_ctx = ctx_.getSystemContext();
-    if (prev_system_ctx.vmstat.size() > 0) {
-      auto swapout_bps = (system_ctx.vmstat.at("pswpout") -
-                          prev_system_ctx.vmstat.at("pswpout")) *
+    // pswpout is absent on kernels built without swap support
+    auto cur_pswpout = system_ctx.vmstat.find("pswpout");
+    auto prev_pswpout = prev_system_ctx.vmstat.find("pswpout");
+    if (cur_pswpout != system_ctx.vmstat.end() &&
+        prev_pswpout != prev_system_ctx.vmstat.end()) {
+      auto swapout_bps = (cur_pswpout->second - prev_pswpout->second) *
           4096.0 / interval_.count();
       system_ctx.swapout_bps = swapout_bps;
       system_ctx.swapout_bps_60 = swapout_bps +
